@@ -261,6 +261,64 @@ fn check_calib(case: &CalibCase, cov: &mut Cov) -> CheckResult {
     Ok(())
 }
 
+// ------------------------------------------------------------------------------------------
+// MultiChainTracker::stats(sample): the diagnostics of the sample it is handed, whatever the
+// tracker itself has seen so far
+// ------------------------------------------------------------------------------------------
+
+#[derive(Debug, Clone, Serialize, Deserialize)]
+pub struct TrackerStatsCase {
+    pub arr: ArrCase,
+    /// how many times the tracker was stepped before `stats` is called (0 = fresh)
+    pub tracker_steps: usize,
+    pub f64_backend: bool,
+}
+
+fn tracker_stats_strategy() -> BoxedStrategy<TrackerStatsCase> {
+    bx((arr_case(6, 600, false), prop_oneof![2 => Just(0usize), 3 => 1usize..40, 1 => 40usize..800], any::<bool>()).prop_map(|(arr, tracker_steps, f64_backend)| TrackerStatsCase { arr, tracker_steps, f64_backend }))
+}
+
+fn check_tracker_stats(c: &TrackerStatsCase, cov: &mut Cov) -> CheckResult {
+    use burn::backend::NdArray;
+    use burn::prelude::*;
+    use mini_mcmc::stats::{MultiChainTracker, RunStats};
+    let per_param = gen_all(&c.arr);
+    let arr = to_array3(&per_param);
+    let (ch, n, p) = arr.dim();
+    let mut tr = MultiChainTracker::new(ch, p);
+    for t in 0..c.tracker_steps {
+        // the states the tracker saw: the first rows of the sample (cyclically)
+        let flat: Vec<f32> = (0..ch).flat_map(|i| (0..p).map(move |q| (i, q))).map(|(i, q)| arr[[i, t % n, q]]).collect();
+        tr.step(&flat).map_err(|e| Fail::new("tracker-error", format!("MultiChainTracker::step: {e}")))?;
+    }
+    let flat: Vec<f64> = arr.iter().map(|v| *v as f64).collect();
+    let got = if c.f64_backend {
+        let t = Tensor::<NdArray<f64>, 3>::from_data(TensorData::new(flat.clone(), [ch, n, p]), &Default::default());
+        no_panic(|| tr.stats(t))
+    } else {
+        let t = Tensor::<NdArray<f32>, 3>::from_data(TensorData::new(flat.clone(), [ch, n, p]), &Default::default());
+        no_panic(|| tr.stats(t))
+    }
+    .map_err(|m| Fail::new("tracker-panic", format!("MultiChainTracker::stats panicked: {m}")))?
+    .map_err(|e| Fail::new("tracker-error", format!("MultiChainTracker::stats returned an error: {e}")))?;
+    let want = RunStats::from(arr.view());
+    let f = |x: f32, y: f32| x.to_bits() == y.to_bits() || (x.is_nan() && y.is_nan());
+    let same = |a: &mini_mcmc::stats::BasicStats, b: &mini_mcmc::stats::BasicStats| f(a.min, b.min) && f(a.max, b.max) && f(a.mean, b.mean) && f(a.std, b.std) && f(a.median, b.median);
+    ensure!(
+        same(&got.ess, &want.ess) && same(&got.rhat, &want.rhat),
+        "tracker-stats-differ",
+        "MultiChainTracker::stats (tracker stepped {} times, sample of {n} draws): {:?}; diagnostics of that sample: {:?}",
+        c.tracker_steps,
+        got,
+        want
+    );
+    cov.class(if c.tracker_steps == 0 { "fresh-tracker" } else if c.tracker_steps < n { "tracker-stepped-fewer-times-than-draws" } else { "tracker-stepped-at-least-draws-times" });
+    if c.tracker_steps > 0 && c.tracker_steps < n {
+        cov.nontrivial_u64(fingerprint(c));
+    }
+    Ok(())
+}
+
 pub fn run(ctx: &mut Ctx) {
     ctx.rule = "sample arrays as in C11 plus AR(1) phi in (-0.9,0.99), half-lengths 94..108 around the 100-row brute-force/FFT switch and non-power-of-two FFT paddings; non-trivial = reference tau > 1.5 (correlated) or a half-length in 96..104 or a metamorphic/calibration case; distinct by case fingerprint".into();
     ctx.assume("interval oracle: the estimator is monotone in every autocorrelation, so the library value must lie in [MN/tau(rho+d), MN/tau(rho-d)](1+-1e-3) with d = 2e-5(1+|loc/scale|/10), the f32 error model of the autocovariance (calibrated; observed widths in evidence)");
@@ -282,6 +340,14 @@ pub fn run(ctx: &mut Ctx) {
         16,
         meta_strategy,
         check_meta,
+    );
+    ctx.section(
+        "tracker-stats",
+        "MultiChainTracker::stats(sample) = diagnostics of that sample (RunStats::from), for trackers stepped 0, fewer-than-draws or many times, f32 and f64 tensors",
+        t.pick(4_000, 120_000),
+        16,
+        tracker_stats_strategy,
+        check_tracker_stats,
     );
     ctx.section(
         "ess-calibration",
